@@ -1,4 +1,5 @@
 import Dalek.Proofs.EdsSign
+import Dalek.Proofs.EdsFast
 /-!
 # C08 — Ed25519 key derivation and signing are the deterministic RFC 8032 functions
 
@@ -34,6 +35,18 @@ theorem sign_ops_independent {ops : Ops} (hc : OpsCorrect ops) (seed msg : List 
     publicKeyWith ops seed = publicKey seed ∧ signWith ops seed msg = sign seed msg ∧
       signPhWith ops seed msg ctx = signPh seed msg ctx :=
   ⟨publicKeyWith_congr hc seed, signWith_congr hc seed msg, signPhWith_congr hc seed msg ctx⟩
+
+/-- In particular the functions executed by the model driver in the correspondence run (group operations
+`Dalek.Driver.fastOps`) are the specification functions the theorems below are about. -/
+theorem sign_driver_eq (seed msg : List UInt8) (ctx : Option (List UInt8)) (b : List UInt8) :
+    publicKeyWith Dalek.Driver.fastOps seed = publicKey seed ∧
+    signWith Dalek.Driver.fastOps seed msg = sign seed msg ∧
+    signPhWith Dalek.Driver.fastOps seed msg ctx = signPh seed msg ctx ∧
+    fromKeypairWith Dalek.Driver.fastOps b = fromKeypairWith Ops.spec b :=
+  ⟨(sign_ops_independent opsCorrect_fastOps seed msg ctx).1,
+   (sign_ops_independent opsCorrect_fastOps seed msg ctx).2.1,
+   (sign_ops_independent opsCorrect_fastOps seed msg ctx).2.2,
+   fromKeypairWith_congr opsCorrect_fastOps b⟩
 
 /-! ## Unfolding theorems: the functions are the RFC 8032 formulas -/
 
@@ -243,12 +256,59 @@ theorem honest_verifies_batch (legacy : Bool) (l : List (List UInt8 × List UInt
     verifyBatch legacy (l.map (·.2)) (l.map fun x => sign x.1 x.2) (l.map fun x => publicKey x.1) = true := by
   show verifyBatchWith Ops.spec legacy _ _ _ = true
   rw [verifyBatch_iff]
-  refine ⟨by simp, by simp, ?_⟩
+  refine ⟨by simp only [List.length_map], by simp only [List.length_map], ?_⟩
   intro x hx
   rw [List.zip_map', List.zip_map', List.mem_map] at hx
   obtain ⟨y, -, rfl⟩ := hx
   have hv : verifyCoreWith Ops.spec legacy false [] (publicKey y.1) y.2 (sign y.1 y.2) = true :=
     honest_verifies legacy y.1 y.2
-  exact ((verify_iff_batchItem legacy _ _ _).1 hv).1
+  have hb := ((verify_iff_batchItem legacy y.2 (sign y.1 y.2) (publicKey y.1)).1 hv).1
+  dsimp only
+  exact hb
+
+/-! ## Non-vacuity and a reference vector -/
+
+/-- The hypothesis of `honest_verifies_strict_partial` is satisfiable (and so is the whole chain: seeds,
+messages, accepted signatures exist): RFC 8032 §7.1 TEST 1 has `r ≠ 0`.  Kernel evaluation of SHA-512. -/
+example :
+    hashToScalar ((expandSeed (natToLe
+      43647624700350065415986689228612485845309737963740022737531181108678917972381 32)).2 ++ []) ≠ 0 := by
+  decide +kernel
+
+/-- RFC 8032 §7.1 TEST 1 (secret key `9d61b19d…7f60`): the derived public key is `d75a9801…511a`.
+Kernel evaluation of the specification (SHA-512, clamping, one affine scalar multiplication, compression;
+about 50 s).  The signature of the same vector (`e5564300…100b`) is checked by the correspondence run on the
+RFC vectors; its kernel evaluation (two more scalar multiplications) takes over a minute and is omitted. -/
+example :
+    publicKey (natToLe 43647624700350065415986689228612485845309737963740022737531181108678917972381 32) =
+      natToLe 11903303657706407974989296177215005343713679411332034699907763981919547054807 32 := by
+  decide +kernel
+
+/-! ## Axiom audit -/
+
+/-- info: 'Dalek.Props.C08.sign_driver_eq' depends on axioms: [propext, Classical.choice, Quot.sound] -/
+#guard_msgs in #print axioms sign_driver_eq
+/-- info: 'Dalek.Props.C08.keygen_eq_rfc' depends on axioms: [propext, Classical.choice, Quot.sound] -/
+#guard_msgs in #print axioms keygen_eq_rfc
+/-- info: 'Dalek.Props.C08.sign_eq_rfc' depends on axioms: [propext, Classical.choice, Quot.sound] -/
+#guard_msgs in #print axioms sign_eq_rfc
+/-- info: 'Dalek.Props.C08.sign_ph_eq_rfc' depends on axioms: [propext, Classical.choice, Quot.sound] -/
+#guard_msgs in #print axioms sign_ph_eq_rfc
+/-- info: 'Dalek.Props.C08.ctx_too_long' depends on axioms: [propext, Quot.sound] -/
+#guard_msgs in #print axioms ctx_too_long
+/-- info: 'Dalek.Props.C08.from_keypair_iff' depends on axioms: [propext, Classical.choice, Quot.sound] -/
+#guard_msgs in #print axioms from_keypair_iff
+/-- info: 'Dalek.Props.C08.clamped_nonzero_mod_l' depends on axioms: [propext, Classical.choice, Quot.sound] -/
+#guard_msgs in #print axioms clamped_nonzero_mod_l
+/-- info: 'Dalek.Props.C08.honest_verifies' depends on axioms: [propext, Classical.choice, Quot.sound] -/
+#guard_msgs in #print axioms honest_verifies
+/-- info: 'Dalek.Props.C08.honest_verifies_ph' depends on axioms: [propext, Classical.choice, Quot.sound] -/
+#guard_msgs in #print axioms honest_verifies_ph
+/-- info: 'Dalek.Props.C08.honest_verifies_strict_iff' depends on axioms: [propext, Classical.choice, Quot.sound] -/
+#guard_msgs in #print axioms honest_verifies_strict_iff
+/-- info: 'Dalek.Props.C08.honest_verifies_ph_strict_partial' depends on axioms: [propext, Classical.choice, Quot.sound] -/
+#guard_msgs in #print axioms honest_verifies_ph_strict_partial
+/-- info: 'Dalek.Props.C08.honest_verifies_batch' depends on axioms: [propext, Classical.choice, Quot.sound] -/
+#guard_msgs in #print axioms honest_verifies_batch
 
 end Dalek.Props.C08
